@@ -5,7 +5,7 @@ from .. import core
 ID = "C15"
 THEOREMS = ["C15_same_decision_everywhere", "C15_rule", "C15_chip_programmed", "C15_lorawan_ends",
             "C15_sx1272_modulation_writes_ldro", "C15_sx1272_packet_params_keep_ldro", "C15_sx1272_ldro_survives_prepare",
-            "C15_sx1276_modulation_writes_ldro"]
+            "C15_sx1276_modulation_writes_ldro", "C15_sx1272_bus_modulation", "C15_sx1272_bus_packet"]
 CHIPS = ["sx1261", "sx1262", "stm32wl", "sx1276", "sx1272", "lr1110"]
 
 
